@@ -189,36 +189,41 @@ def run_check(pid, tier, seed, jobs):
     else:
         import multiprocessing as mp
 
-        import signal
+        import time as _t
+        from concurrent.futures import ProcessPoolExecutor
+        from concurrent.futures import TimeoutError as _FutTimeout
+        from concurrent.futures.process import BrokenProcessPool
 
         ctx = mp.get_context("fork")
         max_wall = int(os.environ.get("VERIF_MAX_WALL", "10800"))
-
-        class _WallClock(Exception):
-            pass
-
-        def _on_alarm(signum, frame):
-            raise _WallClock()
-
-        with ctx.Pool(min(jobs, len(shards)), initializer=_worker_init) as pool:
+        deadline = _t.monotonic() + max_wall
+        ex = ProcessPoolExecutor(max_workers=min(jobs, len(shards)), mp_context=ctx, initializer=_worker_init)
+        try:
             work = [(modname, shards[i]) for i in order]
-            old = signal.signal(signal.SIGALRM, _on_alarm)
-            signal.alarm(max_wall)
-            try:
-                for i, (status, res) in zip(
-                    order, pool.imap(_worker_run, work, chunksize=1)
-                ):
-                    if status == "error":
-                        errors.append(res)
-                        pool.terminate()
-                        break
-                    results[i] = res
-            except _WallClock:
-                errors.append("no result within VERIF_MAX_WALL=%d s (a worker is stuck)" % max_wall)
-                pool.terminate()
-            finally:
-                signal.alarm(0)
-                signal.signal(signal.SIGALRM, old)
+            futs = [ex.submit(_worker_run, w) for w in work]
+            for i, f in zip(order, futs):
+                try:
+                    status, res = f.result(timeout=max(1.0, deadline - _t.monotonic()))
+                except BrokenProcessPool:
+                    errors.append("a worker process died (killed or crashed) while the shards were running; first unfinished shard: %r" % (shards[i],))
+                    break
+                except _FutTimeout:
+                    errors.append("no result within VERIF_MAX_WALL=%d s (a worker is stuck); waiting for shard %r" % (max_wall, shards[i]))
+                    break
+                if status == "error":
+                    errors.append(res)
+                    break
+                results[i] = res
+        finally:
+            if errors:
+                for proc in list(getattr(ex, "_processes", {}).values()):
+                    try:
+                        proc.kill()
+                    except Exception:  # noqa
+                        pass
+                ex.shutdown(wait=False, cancel_futures=True)
+            else:
+                ex.shutdown(wait=True)
     if errors:
         print("HARNESS-ERROR property=%s\n%s" % (pid, errors[0]), file=sys.stderr)
         return 2
